@@ -38,9 +38,15 @@ def handmade(rng, valid_files, tier):
     out["nest_maps"] = b"\xa1\x00" * (deep // 2) + b"\x00"
     out["nest_tags"] = b"\xc1" * deep + b"\x00"
     out["nest_indef_maps"] = b"\xbf\x00" * (deep // 2)
+    # chunked strings whose chunks are chunked strings again (malformed; must be refused without recursing per level)
+    out["nest_indef_bstr"] = b"\x5f" * deep
+    out["nest_indef_tstr"] = b"\x7f" * deep + b"\x61a" + b"\xff" * deep
+    out["nest_indef_bstr_closed"] = b"\x5f" * 3 + b"\x41a" + b"\xff" * 3
+    out["file_typeid_nested_chunks"] = b"\x83" + b"\x7f" * deep
     # the same, reachable through the file reader: an unknown member of the file preamble (skip_item)
     pre = b"\x83\x65C-DNS\xa4\x00\x01\x01\x00\x18\x64"
     out["file_unknown_member_deep"] = pre + b"\x81" * deep + b"\x00" + b"\x03\x80\x9f\xff"
+    out["file_unknown_member_nested_chunks"] = pre + b"\x5f" * deep + b"\x03\x80\x9f\xff"
     for name, hd in (("bstr", 2), ("tstr", 3), ("arr", 4), ("map", 5)):
         for val in ((1 << 64) - 1, 1 << 63, 1 << 47, 1 << 32, (1 << 32) - 1, 1 << 31):
             out[f"len_{name}_{val:x}"] = head(hd, val) + b"\x01\x02\x03"
